@@ -236,6 +236,7 @@ func runBatchSequential(ctx context.Context, node Node, items []Result, results 
 		if ctx.Err() != nil {
 			results[i] = NewErrorResult(fmt.Errorf("context cancelled"))
 			if errorHandling == "stop" {
+				markUnprocessed(results[i+1:], "context cancelled")
 				break
 			}
 			continue
@@ -245,6 +246,7 @@ func runBatchSequential(ctx context.Context, node Node, items []Result, results 
 		if err != nil {
 			results[i] = NewErrorResult(err)
 			if errorHandling == "stop" {
+				markUnprocessed(results[i+1:], "batch stopped due to error")
 				break
 			}
 		} else {
@@ -254,6 +256,14 @@ func runBatchSequential(ctx context.Context, node Node, items []Result, results 
 				results[i] = NewResult(execResult)
 			}
 		}
+	}
+}
+
+// markUnprocessed gives every slot of an item that was never executed an error result,
+// so that post never sees a zero Result (which looks like a success) for it.
+func markUnprocessed(results []Result, reason string) {
+	for i := range results {
+		results[i] = NewErrorResult(fmt.Errorf("%s", reason))
 	}
 }
 
